@@ -37,6 +37,7 @@ func init() {
 
 func runC18(c *Ctx, r *Report) {
 	l := c.L
+	defer c18r7(c, r)
 	hist := l.Named("fzf", "History")
 	fPath := l.Field("fzf", "History", "path")
 	fMod := l.Field("fzf", "History", "modified")
@@ -661,12 +662,19 @@ func runC19(c *Ctx, r *Report) {
 	r.rule("C19-R4", "B", "P1", "the walker's callbacks run concurrently: the streaming filter they feed uses its slab only under its mutex (same obligations as C05-R1)", "walker + --filter --no-sort: matches lost or a crash")
 	oneSlabPerWorker(c, r)
 	c17r10(c, r) // --walker / --walker-skip values are assigned or rejected, never silently ignored
+	c13r8(c, r)  // the parallel walker pushes concurrently: every path is listed exactly once only if the slot is filled under the list lock
+	c19r5(c, r)
 }
 
 // ------------------------------------------------------------------------------------------ C20
 
 func runC20(c *Ctx, r *Report) {
 	l := c.L
+	defer func() {
+		c09r1(c, r) // the selection is changed only by selectItem/deselectItem ...
+		c20r9(c, r) // ... which mark the preview stale
+		c20r10(c, r)
+	}()
 	loop := l.Fn("fzf", "(*Terminal).Loop")
 	cancelP := l.Fn("fzf", "(*Terminal).cancelPreview")
 	fBox := l.Field("fzf", "Terminal", "previewBox")
